@@ -7,7 +7,9 @@ def part(name, pkg, test, **kw):
     return d
 
 PROPS = {
+    "C01": {"level": "exploration", "parts": [part("dump", "stack", "TestVerifC01")]},
     "C04": {"level": "exploration", "parts": [part("agg", "stack", "TestVerifC04")]},
     "C05": {"level": "exploration", "parts": [part("agg", "stack", "TestVerifC05")]},
+    "C13": {"level": "exploration", "parts": [part("order", "stack", "TestVerifC13")]},
     "C12": {"level": "exploration", "parts": [part("agg", "stack", "TestVerifC12")]},
 }
